@@ -65,6 +65,12 @@ def worker(unit, emit):
             rec(c[:i] + c[i + 1:], 'del@%d' % i)
             if i + 1 < len(c):
                 rec(c[:i] + c[i + 1] + c[i] + c[i + 2:], 'swap@%d' % i)
+        if name in ('be.nn', 'be.bis', 'be.ssn') and len(c) == 11 and c.isdigit():
+            # both sides of the clock boundary: birth years around the current one, completed with the check digits of either century
+            for yy in sorted({(year + d) % 100 for d in (-1, 0, 1, 2)} | {99, 0}):
+                n9 = '%02d' % yy + c[2:9]
+                for pre in ('', '2'):
+                    rec(n9 + '%02d' % (97 - int(pre + n9) % 97), 'year %02d, check digits of century %s' % (yy, '2000' if pre else '1900'))
         rec(c + '0', 'extend')
         rec('0' + c, 'prefix 0')
     for n in sorted(lens):
